@@ -8,7 +8,7 @@
    [in_closure names p] : p is one of the names cut at a hierarchy delimiter. *)
 From PV Require Import Base.Prelude Namespace.Glob Namespace.GlobProofs Namespace.NsBase
      Namespace.NsBaseProofs Namespace.ListTree Namespace.ListTreeProofs Namespace.NsModel
-     Namespace.NsProofs Namespace.MdModel Namespace.MdProofs.
+     Namespace.NsProofs Namespace.MdModel Namespace.MdProofs Namespace.PathsProofs Namespace.MdInv.
 
 (* ---- (a) pattern matching *)
 Theorem glob_correct : forall pat name, model_match pat name = rfc_match pat name.
@@ -80,6 +80,7 @@ Proof. exact subscribed_spec. Qed.
 Print Assumptions subscribed_is_lookup.
 
 Theorem subscribe_spec : forall uid0 st n0 (flag : bool),
+  (flag = true -> inbox_case_bad (norm n0) = false) ->
   let o := if flag then OSubscribe n0 else OUnsubscribe n0 in
   let st' := fst (dstep uid0 st o) in
   o_cond (snd (dstep uid0 st o)) = COk
@@ -217,17 +218,23 @@ Theorem invariant_all_programs : forall uid0 prog st, dinv st -> dinv (drun uid0
 Proof. exact d_inv_run. Qed.
 Print Assumptions invariant_all_programs.
 
-(* creating an existing name / INBOX is refused, a new name is created empty *)
+(* [create_name n0] is the name CREATE makes (INBOX case folding, one trailing
+   hierarchy delimiter dropped, RFC 3501 6.3.3) or the refusal code (INBOX
+   itself, a name that is INBOX after dropping the delimiter, a first component
+   spelled like INBOX in another case); an existing name is refused, a new
+   one is created empty *)
 Theorem create_spec : forall uid0 st n0,
-  let n := norm n0 in
   let st' := fst (dstep uid0 st (OCreate n0)) in
   let out := snd (dstep uid0 st (OCreate n0)) in
-  (n = INBOX \/ In n (map fst (d_set st)) -> o_cond out <> COk /\ st' = st)
-  /\ (n <> INBOX -> ~ In n (map fst (d_set st)) ->
-      o_cond out = COk
-      /\ alookup n (d_set st') = Some (fresh uid0 (d_next st))
-      /\ (forall m, m <> n -> alookup m (d_set st') = alookup m (d_set st))
-      /\ d_inbox st' = d_inbox st /\ d_subs st' = d_subs st).
+  (forall k, create_name n0 = inr k -> o_cond out = CNo k /\ st' = st)
+  /\ (forall n, create_name n0 = inl n ->
+       n <> INBOX
+       /\ (In n (map fst (d_set st)) -> o_cond out <> COk /\ st' = st)
+       /\ (~ In n (map fst (d_set st)) ->
+           o_cond out = COk
+           /\ alookup n (d_set st') = Some (fresh uid0 (d_next st))
+           /\ (forall m, m <> n -> alookup m (d_set st') = alookup m (d_set st))
+           /\ d_inbox st' = d_inbox st /\ d_subs st' = d_subs st)).
 Proof. exact d_create_spec. Qed.
 Print Assumptions create_spec.
 
@@ -245,7 +252,8 @@ Proof. exact d_delete_spec. Qed.
 Print Assumptions delete_spec.
 
 Theorem rename_refused : forall uid0 st a0 b0,
-  norm b0 = INBOX \/ ~ in_closure (dnames st) (norm a0) \/ in_closure (dnames st) (norm b0) ->
+  (exists k, rename_dest b0 = inr k)
+  \/ ~ in_closure (dnames st) (norm a0) \/ in_closure (dnames st) (norm b0) ->
   o_cond (snd (dstep uid0 st (ORename a0 b0))) <> COk /\ fst (dstep uid0 st (ORename a0 b0)) = st.
 Proof. exact d_rename_refused. Qed.
 Print Assumptions rename_refused.
@@ -256,6 +264,49 @@ Theorem missing_refused : forall uid0 st n0,
   o_cond (snd (dstep uid0 st o)) <> COk /\ fst (dstep uid0 st o) = st.
 Proof. exact d_missing_refused. Qed.
 Print Assumptions missing_refused.
+
+(* ---- maildir: the same refusals, and no escaping exception *)
+Theorem missing_refused_maildir : forall uid0 lay st n0,
+  norm n0 <> INBOX -> ~ In (norm n0) (map fst (x_folders st)) ->
+  forall o, In o [OStatus n0; OSelect n0; OAppend n0; ODelete n0] ->
+  exists k, o_cond (snd (mstep uid0 lay st o)) = CNo k /\ fst (mstep uid0 lay st o) = st.
+Proof. exact m_missing_refused. Qed.
+Print Assumptions missing_refused_maildir.
+
+Theorem create_refused_maildir : forall uid0 lay st n0,
+  (exists k, create_name n0 = inr k)
+  \/ (exists n, create_name n0 = inl n /\ In n (map fst (x_folders st))) ->
+  exists k, o_cond (snd (mstep uid0 lay st (OCreate n0))) = CNo k
+            /\ fst (mstep uid0 lay st (OCreate n0)) = st.
+Proof. exact m_create_refused. Qed.
+Print Assumptions create_refused_maildir.
+
+Theorem rename_refused_maildir : forall uid0 lay st a0 b0,
+  (exists k, rename_dest b0 = inr k)
+  \/ ~ in_closure (INBOX :: folder_names st) (norm a0)
+  \/ in_closure (INBOX :: folder_names st) (norm b0) ->
+  exists k, o_cond (snd (mstep uid0 lay st (ORename a0 b0))) = CNo k
+            /\ fst (mstep uid0 lay st (ORename a0 b0)) = st.
+Proof. exact m_rename_refused. Qed.
+Print Assumptions rename_refused_maildir.
+
+(* fs layout: along every program every folder's superiors are folders
+   ([pclosed]), hence the os.rename of RENAME always finds its source: no
+   command of any program escapes as an exception; the ++ layout has no such
+   call at all *)
+Theorem no_server_bug_maildir_fs : forall uid0 prog o,
+  o_cond (snd (mstep uid0 LFs (mrun uid0 LFs md_init prog) o)) <> CExc.
+Proof. exact fs_no_exc_run. Qed.
+Print Assumptions no_server_bug_maildir_fs.
+
+Theorem superiors_are_folders_fs : forall uid0 st o,
+  pclosed (x_folders st) -> pclosed (x_folders (fst (mstep uid0 LFs st o))).
+Proof. exact pclosed_step. Qed.
+Print Assumptions superiors_are_folders_fs.
+
+Theorem no_server_bug_maildir_plus : forall uid0 st o, o_cond (snd (mstep uid0 LPlus st o)) <> CExc.
+Proof. exact plus_no_exc. Qed.
+Print Assumptions no_server_bug_maildir_plus.
 
 (* the invariant is satisfiable: an empty store *)
 Theorem invariant_example : dinv demo_state.
